@@ -81,7 +81,7 @@ func ruleC10NilRecv(c *Ctx) {
 			c.Check(ok, "C10.NILRECV", construct, p.Pos(call.Pos()), "guarded by a nil test or by the listener's !HasError() latch (pop helpers return nil only after an error was latched)", "a pop helper's result is used as a method receiver without a nil test or the !HasError() guard: once an error is latched the helper returns nil and this call panics")
 		}
 	}
-	c.Floor("C10.NILRECV", 3)
+	c.Floor("C10.NILRECV", 1)
 }
 
 // ---- ASSERT ----------------------------------------------------------------------------------
@@ -281,15 +281,53 @@ func ruleC10Assert(c *Ctx) {
 				}
 			}
 		}
-		// the New function(s): anonymous functions in package init returning MakeInterface
+		// the pool's New function: the function value stored into the New field of the pool literal
+		// that initialises this global (a closure or a named function); all its returns box a T
 		initFn := c.P.SSAPkgs["zitiql"].Func("init")
 		nNew := 0
-		for _, a := range initFn.AnonFuncs {
-			for _, r := range returnsOf(a) {
-				if len(r.Results) == 1 {
-					if mi, isMI := r.Results[0].(*ssa.MakeInterface); isMI && t != nil && types.Identical(mi.X.Type(), t) {
-						nNew++
+		var poolAlloc ssa.Value
+		for _, b := range initFn.Blocks {
+			for _, in := range b.Instrs {
+				if st, isSt := in.(*ssa.Store); isSt && st.Addr == ssa.Value(g) {
+					poolAlloc = st.Val
+				}
+			}
+		}
+		for _, b := range initFn.Blocks {
+			for _, in := range b.Instrs {
+				st, isSt := in.(*ssa.Store)
+				if !isSt || poolAlloc == nil {
+					continue
+				}
+				fa, isFA := st.Addr.(*ssa.FieldAddr)
+				if !isFA || fa.X != poolAlloc {
+					continue
+				}
+				if f, _ := fieldOfAddr(fa); f == nil || f.Name() != "New" {
+					continue
+				}
+				var newFn *ssa.Function
+				switch v := st.Val.(type) {
+				case *ssa.Function:
+					newFn = v
+				case *ssa.MakeClosure:
+					newFn, _ = v.Fn.(*ssa.Function)
+				}
+				if newFn == nil || newFn.Blocks == nil {
+					ok = false
+					continue
+				}
+				good := true
+				for _, r := range returnsOf(newFn) {
+					mi, isMI := r.Results[0].(*ssa.MakeInterface)
+					if len(r.Results) != 1 || !isMI || t == nil || !types.Identical(mi.X.Type(), t) {
+						good = false
 					}
+				}
+				if good {
+					nNew++
+				} else {
+					ok = false
 				}
 			}
 		}
@@ -379,7 +417,7 @@ func ruleC10Assert(c *Ctx) {
 					ks, viaAny := typeFacts(fi, b, base, fld)
 					if len(ks) > 0 {
 						ok, why := tableOK(ks[0], ta.AssertedType, viaAny)
-						if ok && noStoreToField(fn, fld) {
+						if ok && noFieldChangeBetween(fn, fld, ta) {
 							c.OK("C10.ASSERT", construct, pos, fmt.Sprintf("dominated by %s.GetType()==%s and every node type answering that implements the asserted interface", fld.Name(), ntConst[ks[0]]))
 							continue
 						} else if !ok {
@@ -511,6 +549,49 @@ func constInt(o types.Object) int64 {
 	}
 	v, _ := constant.Int64Val(k.Val())
 	return v
+}
+
+// noFieldChangeBetween: no write to field fld (a store, or its address handed to a call) can happen
+// between a GetType() guard on that field and the instruction `at`.
+func noFieldChangeBetween(fn *ssa.Function, fld *types.Var, at ssa.Instruction) bool {
+	var guards, mods []ssa.Instruction
+	for _, b := range fn.Blocks {
+		for _, in := range b.Instrs {
+			switch x := in.(type) {
+			case *ssa.Store:
+				if f, _ := fieldOfAddr(x.Addr); sameVar(f, fld) {
+					mods = append(mods, in)
+				}
+			case ssa.CallInstruction:
+				cc := x.Common()
+				if cc.IsInvoke() && cc.Method.Name() == "GetType" {
+					if f, _ := loadedField(cc.Value); sameVar(f, fld) {
+						guards = append(guards, in)
+					}
+				}
+				for _, a := range cc.Args {
+					if f, _ := fieldOfAddr(a); sameVar(f, fld) {
+						mods = append(mods, in)
+					}
+				}
+			}
+		}
+	}
+	if len(mods) == 0 {
+		return true
+	}
+	never := func(ssa.Instruction) bool { return false }
+	for _, m := range mods {
+		if !reachWithoutFrom(fn, m, never).Reaches(at) {
+			continue
+		}
+		for _, g := range guards {
+			if reachWithoutFrom(fn, g, never).Reaches(m) {
+				return false
+			}
+		}
+	}
+	return true
 }
 
 func noStoreToField(fn *ssa.Function, fld *types.Var) bool {
@@ -1283,5 +1364,5 @@ func ruleC10NilBucket(c *Ctx) {
 			}
 		}
 	}
-	c.Floor("C10.NILBUCKET", 3)
+	c.Floor("C10.NILBUCKET", 1)
 }
